@@ -13,6 +13,7 @@ BUDGET = {
     "quick": {"workers": 16, "cases": 1200, "secs": 60, "min_cases": 9600},
     "thorough": {"workers": 16, "rounds": 4, "cases": 3500, "secs": 420, "min_cases": 112000},
 }
+BUILD_VERDICTS = ("blackbox_definition_changed",)  # the registry is part of this property (see gen.circuits.Misbehaved)
 ANCHORS = ["circuit:Circuit.add", "circuit:Circuit.connect", "circuit:Circuit.uid", "circuit:Circuit.add_blackbox", "circuit:Circuit.add_subcircuit", "circuit:Circuit.fill_blackbox", "circuit:Circuit.remove", "circuit:Circuit.disconnect", "circuit:Circuit.set_output"]
 
 TYPES = ["buf", "not", "and", "nand", "or", "nor", "xor", "xnor", "input", "0", "1", "x", "bb_input", "bb_output"]
